@@ -772,7 +772,9 @@ def add_exotics(rng: random.Random, form: dict, kinds, p=0.5) -> list[str]:
             form.setdefault("choices", []).extend({"list_name": lst, "name": n_, "label": n_.upper()} for n_ in ("y", "n"))
             inner = ([{"type": f"select_one {lst}", "name": _fresh(form, "tq"), "label": "Q"}] if rng.random() < 0.5 and kind == "table_list_repeat"
                      else [{"type": "text", "name": _fresh(form, "tt"), "label": "T"}])
-            survey += [{"type": "begin repeat", "name": _fresh(form, "trep"), "label": "R", "appearance": "table-list"}, *inner, {"type": "end repeat"}]
+            head = {"type": rng.choice(["begin repeat", "begin repeat", "begin group"]), "name": _fresh(form, "trep"), "appearance": "table-list"}
+            head.update(rng.choice([{"label": "R"}, {"label": "R", "hint": "fill the table"}, {"hint": "only a hint"}, {}]))
+            survey += [head, *inner, {"type": "end " + head["type"].split()[1]}]
             later = {"type": f"select_one {lst}", "name": _fresh(form, "after"), "label": "After", "appearance": "minimal"}
             if rng.random() < 0.5:
                 survey += [{"type": "begin group", "name": _fresh(form, "tg"), "label": "G"}, {"type": "text", "name": _fresh(form, "tx"), "label": "X"}, later, {"type": "end group"}]
